@@ -533,6 +533,25 @@ def run(chk):
                 ok = False
             ok = ok and all(gq.dominated_by_nodes(gq.node_of(st[0]), [gq.node_of(n_)]) for n_ in need)
         chk.ob("O19.6", f"{fname}: next cursor := the extractor's result for this page", ok, st[0] if st else PL_, short(st[0], 70) if st else "cursor never set")
+        # the body belongs to the parameter source, which hands it out again for the next invocation: a cursor may only be stored into it when another page of THIS invocation will
+        # be requested (guard `page < last page` of `for page in range(1, last + 1)`), or it is removed again on every path to the return (also when the page limit ends the loop)
+        if st:
+            fq_ = source.enclosing_func(st[0])
+            iv_ = PL_.target.id if isinstance(PL_.target, ast.Name) else None
+            more = False
+            if iv_ and isinstance(PL_.iter, ast.Call) and dotted(PL_.iter.func) == "range" and len(PL_.iter.args) == 2:
+                hi = PL_.iter.args[1]
+                lim = hi.left if isinstance(hi, ast.BinOp) and isinstance(hi.op, ast.Add) and source.is_const(hi.right, 1) else None
+                if lim is not None:
+                    more = _pat.guarded(st[0], f"{iv_} < {u(lim)}", f"{iv_} + 1 <= {u(lim)}", f"{iv_} != {u(lim)}", stop=PL_) is not None
+            removals = [n for n in walk_body(fq_) if isinstance(n, ast.Call) and isinstance(n.func, ast.Attribute) and n.func.attr == "pop" and n.args
+                        and (source.is_const(n.args[0], cursor_key) or (isinstance(n.args[0], ast.Name) and any(isinstance(l_, ast.For) and isinstance(l_.target, ast.Name) and l_.target.id == n.args[0].id
+                             and isinstance(l_.iter, (ast.List, ast.Tuple)) and any(source.is_const(e_, cursor_key) for e_ in l_.iter.elts) for l_ in source.ancestors(n))))]
+            cleaned = bool(removals) and gq.must_pass(gq.node_of(st[0]), [gq.node_of(r_) for r_ in removals], normal_only=True)
+            chk.ob("O19.6", f"{fname}: the cursor never survives the invocation in the operation's body", more or cleaned, st[0],
+                   "stored only when another page follows" if more else ("removed on every path to the return" if cleaned else
+                   "when the page limit ends the loop the cursor stays in the body the parameter source hands out again: the next iteration of the task starts from a stale cursor"),
+                   key=f"{_R}:Query.{fname}:cursor-does-not-survive")
         pg = {n.targets[0].slice.value: n.value for n in ast.walk(PL_) if isinstance(n, ast.Assign) and isinstance(n.targets[0], ast.Subscript) and isinstance(n.targets[0].value, ast.Name)
               and n.targets[0].value.id == RES and isinstance(n.targets[0].slice, ast.Constant)}
         iv = PL_.target.id
@@ -819,6 +838,9 @@ from sa.selftest import V  # noqa: E402
 
 _NEW = "            # sort values may contain brackets themselves so only the JSON decoder can tell where the array ends\n            last_sort, _ = self.decoder.raw_decode(response_str, index_of_last_sort + last_sort_str.start(1))\n            return last_sort"
 VARIANTS = [
+    V("F17: cursor stored after the last allowed page (search_after)", "break", _R, "                if results.get(\"hits\") / size > page and page < total_pages:", "                if results.get(\"hits\") / size > page:", "O19.6"),
+    V("F17: cursor stored after the last allowed page (composite)", "break", _R, "                if isinstance(after_key, dict) and page < total_pages:", "                if isinstance(after_key, dict):", "O19.6"),
+    V("page limit test written the other way round", "keep", _R, "                if results.get(\"hits\") / size > page and page < total_pages:", "                if total_pages > page and results.get(\"hits\") / size > page:"),
     V("F9a: value cut out by a bracket character class", "break", _R, _NEW, "            return json.loads(re.search(r\"sort\\\":([^\\]]*])\", response_str[index_of_last_sort::]).group(1))", None),
     V("different failure predicate in the fast path", "break", _R, "                if data[\"status\"] > 299 or (\"_shards\" in data and data[\"_shards\"][\"failed\"] > 0):\n                    bulk_error_count += 1\n                    self.extract_error_details(error_details, data)\n                else:\n                    bulk_success_count += 1\n        stats = {\n            \"took\": props.get(\"took\"),",
       "                if data[\"status\"] > 299:\n                    bulk_error_count += 1\n                    self.extract_error_details(error_details, data)\n                else:\n                    bulk_success_count += 1\n        stats = {\n            \"took\": props.get(\"took\"),", "O19.1"),
